@@ -7,6 +7,7 @@ package model
 import (
 	"fmt"
 	"math"
+	"strings"
 
 	"github.com/basecomplextech/spec/internal/lang/syntax"
 )
@@ -24,6 +25,10 @@ func newField(pfield *syntax.Field) (*Field, error) {
 	}
 	if tag < 0 || tag > math.MaxUint16 {
 		return nil, fmt.Errorf("tag out of range, tag=%d, max=%d", tag, math.MaxUint16)
+	}
+
+	if reservedFieldName(pfield.Name) {
+		return nil, fmt.Errorf("reserved field name, it collides with a generated method")
 	}
 
 	type_, err := newType(pfield.Type)
@@ -132,4 +137,17 @@ func (f *Fields) compile() error {
 		}
 	}
 	return nil
+}
+
+// reservedFieldName returns true if the generated accessor for a field name
+// would collide with a method every generated message or message writer has.
+func reservedFieldName(name string) bool {
+	name = strings.ToLower(strings.ReplaceAll(name, "_", ""))
+
+	switch name {
+	case "clone", "clonetoarena", "clonetobuffer", "isempty", "unwrap",
+		"merge", "end", "build":
+		return true
+	}
+	return false
 }
